@@ -36,7 +36,8 @@
      fieldpart <name> <lo> <hi> <seed>          cg_field_partial_write
      bbox <seed>                    cg_grid_bounding_box_write
      getcoord <name>   getfield <name>   getelems <S>   (whole-array reads; status only)
-     saveas <file> <adf|hdf5>       cg_save_as        cgdeldesc <name>   (cg_delete_node of a child of the base) */
+     saveas <file> <adf|hdf5>       cg_save_as        cgdeldesc <name>   (cg_delete_node of a child of the base)
+     cgcompress <n>                 cg_configure(CG_CONFIG_COMPRESS, n): cg_close rewrites the file when n nodes were deleted (-1: always) */
 #include <stdio.h>
 #include <stdlib.h>
 #include <string.h>
@@ -242,6 +243,7 @@ int main(int argc, char **argv)
             ier = cg_goto(fn, B, "end");
             if (!ier) ier = cg_descriptor_write(a, b);
         } else if (!strncmp(line, "cgclose", 7)) ier = cg_close(fn);
+        else if (sscanf(line, "cgcompress %ld", &n) == 1) ier = cg_configure(CG_CONFIG_COMPRESS, (void *)(size_t)n);   /* compress-on-close */
         else if (sscanf(line, "zn %ld", &n) == 1) { zn = (int)n; ier = 0; }      /* size of the existing structured zone; no library call */
         else if (sscanf(line, "cgdeldesc %1023s", a) == 1) {
             ier = cg_goto(fn, B, "end");
